@@ -413,6 +413,11 @@ type Chain struct {
 	// PB (instead of Obj): the embedded object is a generated protobuf message, see pb.go. The plain extraction of every
 	// stage then goes into a fresh message of the same type. Padding places "obj.*" do not apply to it.
 	PB *PB `json:"pb,omitempty"`
+	// Lit (instead of Obj / PB): the embedded object is a Go value whose JSON text is a bare literal or an edge token
+	// (null through a typed nil pointer / nil slice / nil map / ..., true, 0, "", [], {}, [null], a huge number ...), see
+	// lit.go. The plain extraction of every stage goes into a zero target of the value's own type; Into is one of
+	// LitIntoKinds. Padding places "obj.*" do not apply to it.
+	Lit *Lit `json:"lit,omitempty"`
 }
 
 // IntoKinds are the kinds of extraction targets:
@@ -440,12 +445,15 @@ type sink struct {
 	raw  json.RawMessage
 	bl   blob
 	pb   *PB // kind "pb": the description of the embedded message
+	// lit: the embedded object is a literal object (lit.go): a target kind that cannot take its JSON text at all (an
+	// interface{} and a number beyond float64) is skipped
+	lit *Lit
 }
 
 func newSink(kind string) *sink {
 	s := &sink{kind: kind}
 	switch kind {
-	case "obj", "any", "map", "raw", "blob", "pb":
+	case "obj", "any", "map", "raw", "blob", "pb", "filled", "anyfilled":
 	case "rawcap":
 		s.raw = append(make(json.RawMessage, 0, 4096), `{"stale":"left over from an earlier use"}`...)
 	default:
@@ -507,7 +515,31 @@ func (s *sink) check(stage string, e error, want any, wantJSON []byte) *vstat.Vi
 	var got, ref []byte
 	refOK := true
 	var scribble func()
+	if s.lit != nil {
+		if _, viaOK := viaAny(wantJSON); !viaOK {
+			// a number beyond float64: encoding/json cannot decode the text through interface{} (the comparison path of the
+			// kinds below); a *any cannot take it at all, a RawMessage / Unmarshaler gets the text itself
+			switch s.kind {
+			case "raw", "rawcap":
+				if !gerrors.ExtractObject(e, &s.raw) || !bytes.Equal(s.raw, wantJSON) {
+					return vstat.V("errors:extract-different-object", "%s: ExtractObject into a *json.RawMessage (%s) did not return the embedded text %s but %q (message %q)", stage, s.kind, clip(string(wantJSON)), clip(string(s.raw)), clip(e.Error()))
+				}
+				return nil
+			case "blob":
+				if !gerrors.ExtractObject(e, &s.bl) || !bytes.Equal(s.bl, wantJSON) {
+					return vstat.V("errors:extract-different-object", "%s: ExtractObject did not hand a json.Unmarshaler the embedded text %s but %q (message %q)", stage, clip(string(wantJSON)), clip(string(s.bl)), clip(e.Error()))
+				}
+				return nil
+			case "any":
+				return nil
+			}
+		}
+	}
 	switch s.kind {
+	case "filled":
+		return extractLit(stage, e, s.lit, true, wantJSON)
+	case "anyfilled":
+		return extractLitAny(stage, e, s.lit, wantJSON)
 	case "pb":
 		got, v := extractPB(stage, "the caller's own", e, s.pb, want.(proto.Message), wantJSON)
 		if v == nil {
@@ -633,6 +665,7 @@ type Info struct {
 	ObjEscHTML    bool // ... for one of the code points json.Marshal itself writes as \u escapes (< > & U+2028 U+2029)
 	ObjHTMLChar   bool // ... hold one of the characters < > & U+2028 U+2029 themselves
 	ObjQuote      bool // ... hold a double quote
+	Lit           []string // classes of embedded literal objects (lit.go)
 }
 
 // Run executes the case.
@@ -769,6 +802,9 @@ func (ch Chain) object() any {
 	if ch.PB != nil {
 		return ch.PB.build()
 	}
+	if ch.Lit != nil {
+		return ch.Lit.build()
+	}
 	return ch.Obj
 }
 
@@ -783,14 +819,32 @@ func validate(ch Chain) {
 	if ch.Embed > len(ch.Wraps) {
 		panic("embed level beyond the chain")
 	}
-	if ch.Embed >= 0 && (ch.Obj == nil) == (ch.PB == nil) {
-		panic("embed needs exactly one of an object and a proto message")
+	forms := 0
+	for _, has := range []bool{ch.Obj != nil, ch.PB != nil, ch.Lit != nil} {
+		if has {
+			forms++
+		}
+	}
+	if ch.Embed >= 0 && forms != 1 {
+		panic("embed needs exactly one of an object, a proto message and a literal object")
 	}
 	if ch.PB != nil {
 		validatePB(ch.PB)
 	}
+	if ch.Lit != nil {
+		validateLit(ch.Lit)
+	}
 	if ch.Into == "obj" && ch.PB != nil || ch.Into == "pb" && ch.PB == nil {
 		panic("extraction target kind does not fit the object")
+	}
+	if ch.Into != "" {
+		fits := false
+		for _, k := range LitIntoKinds {
+			fits = fits || k == ch.Into
+		}
+		if ch.Lit != nil && !fits || ch.Lit == nil && (ch.Into == "filled" || ch.Into == "anyfilled") {
+			panic("extraction target kind does not fit the object")
+		}
 	}
 	if ch.Into != "" && ch.Embed < 0 {
 		panic("extraction target without an object")
@@ -844,8 +898,8 @@ func assemble(ch Chain) (e, eEmb error, repaired bool) {
 // padded returns the chain with the padding asked for by Target/Pad applied (a copy; the case is not modified).
 func padded(ch Chain) Chain {
 	target := ch.Target
-	if ch.PB != nil && (ch.ObjTarget > 0 || strings.HasPrefix(ch.Pad, "obj.")) {
-		return ch // a generated message has no padding place
+	if (ch.PB != nil || ch.Lit != nil) && (ch.ObjTarget > 0 || strings.HasPrefix(ch.Pad, "obj.")) {
+		return ch // a generated message / a literal object has no padding place
 	}
 	if ch.ObjTarget > 0 {
 		if ch.Embed < 0 || !strings.HasPrefix(ch.Pad, "obj.") {
@@ -924,6 +978,9 @@ func (b *built) want() any {
 	if b.msg != nil {
 		return b.msg
 	}
+	if b.ch.Lit != nil {
+		return b.ch.Lit.build()
+	}
 	return b.ch.Obj
 }
 
@@ -998,11 +1055,15 @@ func runChains(chs []Chain, eager bool, info *Info) *vstat.Violation {
 			}
 			if ch.Into != "" {
 				b.sink = newSink(ch.Into)
-				b.sink.pb = ch.PB
+				b.sink.pb, b.sink.lit = ch.PB, ch.Lit
 				if info.Into == nil {
 					info.Into = map[string]bool{}
 				}
-				info.Into[ch.Into] = true
+				if ch.Lit != nil {
+					info.Into["lit:"+ch.Into] = true
+				} else {
+					info.Into[ch.Into] = true
+				}
 			}
 		}
 		if ch.Target > 0 || (ch.ObjTarget > 0 && b.ch.Embed >= 0) {
@@ -1016,6 +1077,9 @@ func runChains(chs []Chain, eager bool, info *Info) *vstat.Violation {
 				panic("object is not marshalable: " + err.Error())
 			}
 			info.ObjMarker = info.ObjMarker || objHasMarker(b.ch.Obj)
+			if b.ch.Lit != nil {
+				info.Lit = append(info.Lit, litClasses(b.ch.Lit, b.wantJSON)...)
+			}
 			if n := len(b.wantJSON); n > info.ObjLen {
 				info.ObjLen = n
 			}
@@ -1170,6 +1234,9 @@ func checkChain(b *built, info *Info) *vstat.Violation {
 		if c.PB != nil {
 			_, v := extractPB(stage, "a fresh", e, c.PB, b.msg, b.wantJSON)
 			return v
+		}
+		if c.Lit != nil {
+			return extractLit(stage, e, c.Lit, false, b.wantJSON)
 		}
 		return extractCheck(stage, e, c.Obj, b.wantJSON)
 	}
@@ -1393,6 +1460,16 @@ func (i Info) Classes() []string {
 	add(i.ObjEdge, "objjson_ends_8_below_to_2_above_a_multiple_of_512")
 	for _, k := range append([]string{"pb"}, IntoKinds...) {
 		add(i.Into[k], "extracted_into_"+k+"_then_overwritten_by_the_caller")
+	}
+	for _, k := range LitIntoKinds {
+		add(i.Into["lit:"+k], "literal_object_extracted_into_"+k)
+	}
+	seen := map[string]bool{}
+	for _, k := range i.Lit {
+		if !seen[k] {
+			seen[k] = true
+			c = append(c, k)
+		}
 	}
 	if i.PBKind != "" {
 		c = append(c, "object_is_generated_proto_message", "proto_message:"+i.PBKind)
